@@ -573,6 +573,10 @@ class SlidingWindow:
 
                 return ranges
 
+            # empty focus: no index at all
+            if not focus:
+                return np.array([], dtype=np.int64)
+
             # concatenate all indices
             indices = np.hstack([
                 self.crop(s, mode=mode, fixed=fixed, return_ranges=False)
